@@ -28,6 +28,7 @@ import (
 	"github.com/conduitio/conduit/pkg/foundation/cerrors/conduiterr"
 	"github.com/conduitio/conduit/pkg/foundation/log"
 	"github.com/conduitio/conduit/pkg/foundation/metrics/measure"
+	"github.com/conduitio/conduit/pkg/foundation/verifhook"
 )
 
 var idRegex = regexp.MustCompile(`^[A-Za-z0-9-_:.]*$`)
@@ -400,6 +401,7 @@ func (s *Service) UpdateStatus(ctx context.Context, id string, status Status, er
 	pipeline.Error = errMsg
 	s.updateNewStatusMetrics(pipeline)
 
+	verifhook.Point("pipeline.updatestatus.before-store")
 	err = s.store.Set(ctx, pipeline.ID, pipeline)
 	if err != nil {
 		return cerrors.Errorf("pipeline not updated: %w", err)
